@@ -950,6 +950,11 @@ namespace sim
 			void close(boost::system::error_code& ec);
 			void close();
 
+			// opening an acceptor that is already open closes it first, as an
+			// acceptor (socket::open() would only close the socket part)
+			void open(tcp protocol, boost::system::error_code& ec);
+			void open(tcp protocol);
+
 			// private interface
 
 			// implements sink
